@@ -52,6 +52,12 @@ var units = map[string]unit{
 		Imports:   []string{"AggkitModel.Model.GenPrelude"},
 		Custom:    flowBaseUnit,
 	},
+	"NextHeight": {
+		Files:     []string{"aggsender/flows/flow_base.go", "agglayer/types/types.go"},
+		Namespace: "Aggkit.Gen.NextHeight",
+		Imports:   []string{"AggkitModel.Model.GenPrelude"},
+		Custom:    nextHeightUnit,
+	},
 	"Schema": {
 		Files:     []string{"*/migrations/*.sql", "db/sqlite.go"},
 		Namespace: "Aggkit.Gen.Schema",
